@@ -1,11 +1,12 @@
 from props import LEAN_TB, CORR_TB, TRANS_TB
 
 PROP = dict(
-    lean=["Tcell.Props.C12"], namespaces=["Tcell.Props.C12"], engines=["parse"],
+    lean=["Tcell.Props.C12"], namespaces=["Tcell.Props.C12"], engines=["parse", "pipemouse"],
     trusted_base=[LEAN_TB, CORR_TB, TRANS_TB,
                   "hand-written model of the input parser (lean/Tcell/Model/Parser.lean, tscreen.go:1295-1812), tied to the code by the `parse` engine through tcell.VerifParser.Feed; the theorems quantify over every Cfg, i.e. hold for the pinned and the strict (fixes/C02-sgr-strict.patch, +sgrfix) SGR loop",
                   "Spec/XtermMouse.lean is a reading of xterm ctlseqs (Mouse Tracking) and of the property text (held-button rule)",
-                  "Go int modelled as 64-bit two's complement (wrap64)"],
+                  "Go int modelled as 64-bit two's complement (wrap64)",
+                  "engine `pipemouse` (harness/sched under the schedule controller, xterm-256color, the whole input pipeline of a live screen): a press report, then EnableMouse / DisableMouse calls with other flags, then drag reports, the release and a buttonless motion must come out with the button held / dropped as the reports say (class mouse-button-state-lost); the schedule trace is replayed by the Lean pipeline model as for C05"],
     assumptions=["reported numbers fit a Go int (|b|,|x|,|y| < 2^63)", "the screen has at least one cell",
                  "the 8-bit CSI introducer 0x9B is recognised only where the locale's decoder does not claim that byte (UTF-8)",
                  "a stream is in one mouse protocol at a time (the oracle forgets the held state when SGR and X11 reports are mixed)"],
